@@ -19,11 +19,11 @@ Next ==
                ELSE IF e.kind = "response"
                     THEN /\ frames' = frames
                          /\ seen' = seen \cup {e.cseq}
-                         /\ (e.cseq \notin seen \/ Bad(e, "C13:response-delivered-twice"))
+                         /\ (IF e.cseq \notin seen THEN TRUE ELSE Bad(e, "C13:response-delivered-twice"))
                ELSE /\ Bad(e, "C13:torn-message") /\ UNCHANGED <<seen, frames>>
        [] e.e = "end" ->
             /\ UNCHANGED <<want, seen, frames>>
-            /\ (want \subseteq seen \/ Bad(e, "C13:request-without-response"))
-            /\ (frames > 0 \/ Bad(e, "C13:vacuous-no-media-frames"))
+            /\ (IF want \subseteq seen THEN TRUE ELSE Bad(e, "C13:request-without-response"))
+            /\ (IF frames > 0 THEN TRUE ELSE Bad(e, "C13:vacuous-no-media-frames"))
 AllConsumed == TLCGet("stats").diameter = Len(Trace) + 1
 ================================================================================
